@@ -125,6 +125,8 @@ class SigmaFilter(SigmaRuleBase):
         Converts from a dictionary object to a SigmaFilter object.
         """
         kwargs, errors = super().from_dict_common_params(sigma_filter, collect_errors, source)
+        if not isinstance(sigma_filter, dict):  # error was recorded above
+            sigma_filter = dict()
 
         # defaults used if the parts can't be parsed and errors are collected
         filter_logsource: SigmaLogSource = EmptyLogSource()
